@@ -122,6 +122,18 @@ CHECKS = {
         note="subprocess comparison is a sample (40 cases quick / 1500 thorough); filter oracle written from the documented semantics",
         design="4/C14",
     ),
+    "C20": dict(
+        category="exploration",
+        technique="Hypothesis-generated closing histories: whole simulation runs (endings: close, repeated close, close/re-open/"
+                  "close, first update CLOSED) and an event-by-event drive of a real live Flumine (market books from the real "
+                  "stream cache, recorder-mode dict updates, back-dated closure times) with per-closing-update invariants",
+        text="Per closing update: closed-callback count per strategy by subscription / empty filter, final book, results on "
+             "orders, one cleared-orders report iff orders and one cleared-market summary per client (simulation), closed flag, "
+             "re-open resets flags, runner contexts and middleware state released, live removal only after one hour. "
+             "Held on everything explored.",
+        note="cleared events read per closing update; ages near the one-hour boundary not generated (wall-clock granularity)",
+        design="4/C20",
+    ),
 }
 
 NOT_BUILT_REASON = "check not built yet (build in progress; see DESIGN.md section 4)"
